@@ -13,3 +13,101 @@ const VerifRBufferSize = rBufferSize
 
 // VerifNumRBuffersPerWorker is numRBuffersPerWorker.
 const VerifNumRBuffersPerWorker = numRBuffersPerWorker
+
+// VerifConcSeek is concReader.seek on a concReader with the given cursor
+// fields. It returns the cursor fields afterwards and what seek returned.
+func VerifConcSeek(pos int64, posLimit int64, decompressedSize int64, seekResolved bool,
+	offset int64, whence int, limit int64) (newPos int64, newPosLimit int64, newSeekResolved bool, ret int64, err error) {
+
+	c := &concReader{
+		pos:              pos,
+		posLimit:         posLimit,
+		decompressedSize: decompressedSize,
+		seekResolved:     seekResolved,
+	}
+	ret, err = c.seek(offset, whence, limit)
+	return c.pos, c.posLimit, c.seekResolved, ret, err
+}
+
+// VerifManagerRequests runs runRManager (the real Manager goroutine function)
+// over r's ChunkReader for one region of interest and returns the dRanges of
+// the work requests it sends, in order, and the error of the last request (a
+// request that carries an error ends the region).
+//
+// r must not be used for anything else. reqc is given the capacity
+// maxRequests (the caller knows the number of chunks: the Manager makes at
+// most one request per chunk), so that the Manager never waits for a Worker.
+func VerifManagerRequests(r *Reader, roi Range, maxRequests int) ([]Range, error) {
+	if err := r.initialize(); err != nil {
+		return nil, err
+	}
+	stopc := make(chan stopWork)
+	roic := make(chan Range)
+	reqc := make(chan rWork, maxRequests)
+	done := make(chan struct{})
+	go func() {
+		runRManager(stopc, roic, reqc, &r.chunkReader)
+		close(done)
+	}()
+	roic <- roi
+	// The Manager listens on roic again only when it has finished the region.
+	// An empty region makes no requests.
+	roic <- Range{roi[1], roi[1]}
+	stopc <- stopWork{nil, false}
+	<-done
+	close(reqc)
+	ranges, err := []Range(nil), error(nil)
+	for w := range reqc {
+		if w.err != nil {
+			err = w.err
+			break
+		}
+		ranges = append(ranges, w.dRange)
+	}
+	return ranges, err
+}
+
+// VerifPiece is one unit of work a Worker sent back.
+type VerifPiece struct {
+	DRange Range
+	Data   []byte
+	Err    error
+}
+
+// VerifWorkerPieces runs runRWorker (the real Worker goroutine function) with
+// r as its racReader, gives it the requests in order and returns the pieces
+// it sends on resc, in order. Buffers are recycled as soon as a piece has
+// been copied, as concReader.Read does.
+//
+// r must have Concurrency 0 and must not be used for anything else.
+func VerifWorkerPieces(r *Reader, requests []Range) []VerifPiece {
+	stopc := make(chan stopWork)
+	resc := make(chan rWork, 4)
+	reqc := make(chan rWork, len(requests)+1)
+	done := make(chan struct{})
+	go func() {
+		runRWorker(stopc, resc, reqc, r)
+		close(done)
+	}()
+	for _, dr := range requests {
+		reqc <- rWork{dRange: dr}
+	}
+	// An empty request comes back as an error piece: the end marker.
+	reqc <- rWork{dRange: Range{-1, -1}}
+	pieces := []VerifPiece(nil)
+	for {
+		w := <-resc
+		if w.dRange == (Range{-1, -1}) {
+			break
+		}
+		p := VerifPiece{DRange: w.dRange, Err: w.err}
+		if w.buffer != nil {
+			p.Data = append([]byte(nil), w.buffer[w.i:w.j]...)
+		}
+		w.recycle()
+		pieces = append(pieces, p)
+	}
+	stopc <- stopWork{nil, false}
+	<-done
+	return pieces
+}
